@@ -22,9 +22,6 @@ HARNESS = os.path.join(VERIF, "harness")
 RUNNER = os.path.join(HARNESS, "js", "runner.js")
 GVH = os.path.join(HARNESS, "bin", "gvh")
 
-
-def gvh_path(name="gvh"):
-    return os.path.join(HARNESS, "bin", name)
 ALLOWED_AXIOMS = {"propext", "Classical.choice", "Quot.sound"}
 FORBIDDEN = re.compile(r"\bsorry\b|\badmit\b|^\s*axiom\s|native_decide|bv_decide|implemented_by|\bunsafe\s|maxHeartbeats\s+0", re.M)
 
@@ -239,15 +236,32 @@ def run_node(lines, repo=None, timeout=3600):
     return out
 
 
+def _repo_tag():
+    return "" if REPO == "/repo" else "." + hashlib.sha1(REPO.encode()).hexdigest()[:8]
+
+
+def gvh_path(name="gvh"):
+    return os.path.join(HARNESS, "bin", name + _repo_tag())
+
+
 def build_gvh(name="gvh"):
-    """(Re)build a Go harness binary (harness/cmd/<name>) against /repo's working tree with the verif tag.
+    """(Re)build a Go harness binary (harness/cmd/<name>) against the repo's working tree with the verif tag.
+    With VERIF_REPO=<copy> an alternate go.mod (replace => <copy>) is used, so mutation trials never touch /repo.
     Raises on failure: a harness that does not build is a harness failure, never a VIOLATION."""
     os.makedirs(os.path.join(HARNESS, "bin"), exist_ok=True)
     with Lock("gobuild"):
+        args = ["go", "build", "-tags", "verif"]
         gosum = os.path.join(REPO, "go.sum")
-        if os.path.exists(gosum):
-            shutil.copyfile(gosum, os.path.join(HARNESS, "go.sum"))
-        p = sh(["go", "build", "-tags", "verif", "-o", gvh_path(name), "./cmd/" + name], cwd=HARNESS, timeout=1800)
+        if REPO == "/repo":
+            if os.path.exists(gosum):
+                shutil.copyfile(gosum, os.path.join(HARNESS, "go.sum"))
+        else:
+            mod = os.path.join(HARNESS, "alt%s.mod" % _repo_tag())
+            base = open(os.path.join(HARNESS, "go.mod")).read()
+            open(mod, "w").write(base.replace("=> /repo", "=> " + REPO))
+            shutil.copyfile(gosum, mod[:-4] + ".sum")
+            args += ["-modfile", mod]
+        p = sh(args + ["-o", gvh_path(name), "./cmd/" + name], cwd=HARNESS, timeout=1800)
     if p.returncode != 0:
         raise RuntimeError("go build of harness %s failed:\n%s" % (name, (p.stdout + p.stderr)[-4000:]))
     return gvh_path(name)
@@ -285,10 +299,20 @@ def scratch(prefix="gv"):
 # --------------------------------------------------------------------------------------
 
 def load_known():
-    p = os.path.join(VERIF, "known_findings.json")
-    if not os.path.exists(p):
-        return {"findings": [], "fixed": []}
-    return json.load(open(p))
+    """known_findings.json = {"findings":[{property,id,signature,witness,what_fails}], "fixed":[...]}.
+    Fragments under known_findings.d/*.json (same shape) are merged in (used while a check is being developed;
+    tools/merge_known.py folds them into the single committed file). Never written at run time."""
+    res = {"findings": [], "fixed": []}
+    paths = [os.path.join(VERIF, "known_findings.json")]
+    d = os.path.join(VERIF, "known_findings.d")
+    if os.path.isdir(d):
+        paths += [os.path.join(d, f) for f in sorted(os.listdir(d)) if f.endswith(".json")]
+    for p in paths:
+        if os.path.exists(p):
+            j = json.load(open(p))
+            res["findings"] += j.get("findings", [])
+            res["fixed"] += j.get("fixed", [])
+    return res
 
 
 class Check:
